@@ -75,6 +75,15 @@ CHECKS = {
             "valid programs must never turn fatal, nothing may crash, descriptors and mappings must not grow.",
             "the three interposed calls are the complete set used to obtain executable memory; errno values are the documented ones",
             "DESIGN.md 4/C06", True),
+    "C20": ("xreg", "model_checking",
+            "explicit enumeration of all legal registration histories up to a depth bound on the real registries (one process per history), probe programs after each, differential oracle against the empty history",
+            "Every legal order of up to 4 (quick) / 5 (thorough) registration operations - opcode sets whose names are fresh, extend a built-in "
+            "name, are a prefix of built-in names or have 15 characters; rule sets per target with required flags none/present/absent; "
+            "overriding rule sets for a built-in opcode - is applied in a fresh process within each target's rule-set capacity, then "
+            "extension-only, mixed and built-in programs are emulated and compiled for sse/avx(/mmx): name resolution, use of the "
+            "application's emulation function, latest-satisfied-rule precedence, results, and byte-identical code for untouched built-ins.",
+            "application rules use the public emit macros; histories stay within ORC_N_RULE_SETS",
+            "DESIGN.md 4/C20", True),
 }
 
 NOT_YET = {}
@@ -115,6 +124,8 @@ def main():
             "add_only": True,
         },
         "engines": [
+            {"name": "xreg", "path": "engines/xreg.c", "serves_properties": ["C20"],
+             "kind_free_text": "registration-history enumerator: fork per history from an initialised zygote, probes + differential oracle"},
             {"name": "xfault", "path": "engines/xfault.c", "serves_properties": ["C06"],
              "kind_free_text": "fault-vector explorer: interposed mkstemp/ftruncate/mmap answer from a decision vector, DFS over failing call indexes + persistent class subsets, fork per vector"},
             {"name": "xlife", "path": "engines/xlife.c", "serves_properties": ["C16"],
